@@ -119,6 +119,20 @@ let handle (f : string array) : string =
        if r1.r_cls <> Full || not r1.r_stored then "ok " ^ cls_str r1.r_cls ^ " - 0"
        else "ok F " ^ cls_str r2.r_cls ^ " 0"
      | _ -> "BADCASE")
+  | "B" ->
+    (* key blocks of an original and a resumed connection: for GMSSL the key derivation of Agree/KeyModel.v over
+       HMAC-SM3 with the generated lengths (what C16_resumed_record_protection is about); the other versions are
+       recomputed by checks/c16.py only *)
+    if f.(2) <> "0101" then "SKIP"
+    else
+      (match lookup_row (n_of_int (int_of_string ("0x" ^ f.(3)))) with
+       | None -> "err suite"
+       | Some (((mac, key), iv), _) ->
+         let ms = bytes_of_hex f.(4) in
+         let blk cr sr =
+           let (((((a, b), c), d), e), g) = gm_key_block ms (bytes_of_hex cr) (bytes_of_hex sr) mac key iv in
+           hex_of_bytes (a @ b @ c @ d @ e @ g) in
+         Printf.sprintf "ok %d %d %d %s %s" (int_of_nat mac) (int_of_nat key) (int_of_nat iv) (blk f.(5) f.(6)) (blk f.(7) f.(8)))
   | _ -> "BADCASE"
 
 let () = run_file Sys.argv.(1) handle
